@@ -240,10 +240,12 @@ CompleteList(C, et, elems, sels, path, i, site) ==
 
 OpNames(doc) == [i \in DOMAIN doc.ops |-> doc.ops[i].name]
 \* the operation named by the caller, or the only one when no name is given
+\* (no name given: only a lone operation can be meant - an anonymous operation beside others is no more "the one"
+\* than they are)
 ChooseOp(doc, name) ==
   LET hits == {i \in DOMAIN doc.ops : doc.ops[i].name = name}
-  IN IF Cardinality(hits) = 1 THEN CHOOSE i \in hits : TRUE
-     ELSE IF name = "" /\ Len(doc.ops) = 1 THEN 1
+  IN IF name = "" THEN (IF Len(doc.ops) = 1 THEN 1 ELSE 0)
+     ELSE IF Cardinality(hits) = 1 THEN CHOOSE i \in hits : TRUE
      ELSE 0          \* ambiguous or unknown: nothing is executed
 
 \* variable values: the caller's value takes precedence over the default
